@@ -134,6 +134,16 @@ pub open spec fn ix_with(m: Ix, k: Key, p: usize) -> Ix {
 //@@ delete_step
 //@@ rebuild_step
 //@@ check_step
+/// CREATE INDEX: the index key of a row under the column POSITIONS resolved at creation: component j = norm(trunc(row[column_indices[j]], columns[j].prefix_length))
+pub uninterp spec fn zkey(column_indices: Seq<usize>, columns: Seq<IndexColumn>, row: Row) -> Key;
+pub open spec fn zkeys(column_indices: Seq<usize>, columns: Seq<IndexColumn>, rows: Seq<Row>) -> Seq<Key> { Seq::new(rows.len(), |j: int| zkey(column_indices, columns, rows[j])) }
+// column_indices.iter().zip(columns.iter()).map(|(&idx, col)| normalize(truncate(&row.values[idx], col.prefix_length))).collect()
+#[verifier::external_body]
+fn build_key_zip(column_indices: &Vec<usize>, columns: &Vec<IndexColumn>, row: &Row) -> (r: Vec<SqlValue>)
+    requires forall|j: int| 0 <= j < column_indices@.len() ==> (#[trigger] column_indices@[j]) < row.values@.len(),
+    ensures r@ == zkey(column_indices@, columns@, *row)
+{ unimplemented!() }
+//@@ create_build
 
 /// THE MIRROR for a user-defined index: `keys[j]` is the index key of the row at position j; the map holds, under each key, exactly the
 /// positions of the rows with that key - each once, no key with an empty list (what a rebuild from the rows produces, up to the order in a list)
@@ -349,6 +359,37 @@ ITEMS = {
         (*old(index_data)) is InMemory ==> (*final(index_data)) is InMemory
             && umirror((*final(index_data))->InMemory_data.view(), keys_of(metadata.columns@, table_schema, table_rows@)),
 '''),
+    'create_build': dict(
+        file=_F, path='impl IndexManager::fn create_index',
+        # the in-memory build loop of create_index (the SECOND loop over the rows: the first one feeds the disk-backed bulk load)
+        fragment=dict(kind='stmt', index=0, **{'from': r'(?s)for \(row_idx, row\) in table_rows\.iter\(\)\.enumerate\(\) \{(?:(?!sorted_entries).)*?index_data_map\s*\.entry'},
+                      sig='fn create_build(column_indices: &Vec<usize>, columns: &Vec<IndexColumn>, table_rows: &[Row], index_data_map: &mut KeyMap)'),
+        elide=[dict(kind='closure', index=0, expect_params='(&idx, col)', to='ZKEY__')],
+        rewrites=[
+            ('re', r'for \(row_idx, row\) in table_rows\.iter\(\)\.enumerate\(\) \{', 'let mut ri__: usize = 0; while ri__ < table_rows.len() { let row = &table_rows[ri__]; let row_idx = ri__; ri__ = ri__ + 1;', 1),
+            ('re', r'(?s)column_indices\s*\.iter\(\)\s*\.zip\(columns\.iter\(\)\)\s*\.map\(ZKEY__\)\s*\.collect\(\)', 'build_key_zip(column_indices, columns, row)', 1),
+            ('re', r'index_data_map\.entry\(key_values\)\.or_default\(\)\.push\(row_idx\);', 'index_data_map.push_at(key_values, row_idx);', 1),
+        ],
+        loops={0: '''
+            invariant ri__ <= table_rows@.len(),
+                forall|i: int, j: int| 0 <= i < table_rows@.len() && 0 <= j < column_indices@.len() ==> (#[trigger] column_indices@[j]) < (#[trigger] table_rows@[i]).values@.len(),
+                umirror(index_data_map.view(), zkeys(column_indices@, columns@, table_rows@).take(ri__ as int)),
+            decreases table_rows@.len() - ri__,
+'''},
+        proofs=[('index_data_map.push_at(key_values, row_idx);', '''proof {
+                    let ghost ks = zkeys(column_indices@, columns@, table_rows@);
+                    lemma_uinsert(index_data_map.view(), ks.take(row_idx as int), key_values@);
+                    assert(ks.take(row_idx as int).push(key_values@) =~= ks.take(row_idx as int + 1));
+                }'''),
+                ('@entry', 'proof { assert(zkeys(column_indices@, columns@, table_rows@).take(0) =~= Seq::<Key>::empty()); }'),
+                ('@afterloop0', 'proof { let ghost ks = zkeys(column_indices@, columns@, table_rows@); assert(ks.take(ks.len() as int) =~= ks); }')],
+        contract='''
+    requires old(index_data_map).view() == Map::<Key, Seq<usize>>::empty(),       // `let mut index_data_map = BTreeMap::new();` directly before the loop
+             forall|i: int, j: int| 0 <= i < table_rows@.len() && 0 <= j < column_indices@.len() ==> (#[trigger] column_indices@[j]) < (#[trigger] table_rows@[i]).values@.len(),
+    ensures
+        // CREATE INDEX BUILDS THE MIRROR of the rows it is handed: under each key exactly the positions of the rows with that key
+        umirror(final(index_data_map).view(), zkeys(column_indices@, columns@, table_rows@)),
+'''),
     'check_step': dict(
         file='crates/vibesql-storage/src/database/indexes/index_manager.rs', path='impl IndexManager::fn check_unique_constraints_for_insert', ret='res',
         fragment=dict(kind='match', index=0, expect_scrutinee='index_data', tail='Ok(())',
@@ -402,6 +443,7 @@ OBLIGATIONS = {
     'key_delete': ['post:key_component_is_the_named_column_prefix_truncated_and_normalized'],
     'key_rebuild': ['post:key_component_is_the_named_column_prefix_truncated_and_normalized'],
     'check_step': ['post:refused_exactly_when_the_index_holds_the_key'],
+    'create_build': ['post:create_index_builds_the_mirror_of_the_rows', 'proof:loop_invariant_and_termination', 'safety:column_position_in_bounds'],
     'rebuild_step': ['post:a_rebuild_produces_the_mirror_of_the_rows_whatever_was_there_before', 'proof:loop_invariant_and_termination', 'safety:index_in_bounds'],
     'insert_step': ['post:position_appended_to_the_rows_key_nothing_else_changes'],
     'update_step': ['post:position_leaves_the_old_key_and_enters_the_new_key_nothing_else_changes', 'safety:disk_backed_arm_removes_only_this_rows_position'],
@@ -419,6 +461,7 @@ TRUSTED = [
     'the disk-backed arm (SharedTree, TreeGuard, acquire_btree_lock) is opaque: its EFFECT is not under contract, only which B+ tree operation a step may call - TreeGuard::delete (BTreeIndex::delete: removes EVERY position under the key) carries the precondition sole_position_under, which no step can establish, so a step that calls it fails (the defect repaired by the disk-backed fix of DESIGN 9c); delete_specific / insert / lookup are unconstrained',
     'C15 mirror (umirror) is over the key SEQUENCE keys[j] = index key of the row at position j; the order of positions inside one key list is not part of it (a rebuild lists them ascending; DML appends); insert_step_keeps_mirror / update_step_keeps_mirror are verified wrapper functions written here (not repository code) that call the extracted steps through their contracts',
     'check_step: the `match index_data` of IndexManager::check_unique_constraints_for_insert (index_manager.rs) with its early returns, lifted with the fall-through value Ok(()); the error construction (column-name iterator chain + format!) is replaced by the opaque unique_violation, `acquire_btree_lock(btree)?` by lock_or_err (the From conversion of the lock error); the disk-backed arm (TreeGuard::lookup) is NOT under contract',
+    'create_build: the in-memory build loop of IndexManager::create_index (R6 `stmt`, the second loop over the rows), its accumulator `index_data_map` (a fresh BTreeMap: precondition empty) as a parameter; the key closure over (column position, index column) pairs is elided to build_key_zip (external_body, zkey uninterpreted: the same truncate + normalize as the stored keys, by reading); `entry(k).or_default().push(p)` = KeyMap::push_at; NOT under contract: that the map is then stored under the index name, the disk-backed build',
     'rebuild_step: the in-memory arm of the `match index_data` in IndexManager::rebuild_indexes; its key closure is elided to build_key (R6b; the closure itself is verified as key_rebuild; `metadata.columns.iter().map(closure).collect()` ASSUMED to apply it to every index column in order); the disk-backed arm (sort_by + BTreeIndex::bulk_load + lock) is replaced by the opaque rebuild_disk_backed; KeyMap::clear = BTreeMap::clear',
     'that positions stay valid after a DELETE (they shift) is not maintained by delete_step but by the rebuild that follows (units I-resolve, K-undo)',
 ]
